@@ -1,3 +1,433 @@
 package sym
 
-func registerYAML(e *Engine) {}
+import (
+	"fmt"
+	"go/types"
+	"reflect"
+	"strings"
+
+	"golang.org/x/tools/go/ssa"
+	yaml "gopkg.in/yaml.v3"
+)
+
+// yaml.v3 is modelled at the node-tree level: text is parsed by the real library into
+// yaml.Node trees, containers are walked here following crd's struct tags and calling
+// crd's UnmarshalYAML/MarshalYAML methods in the engine, scalar leaves are converted by
+// the real library.
+
+const yamlPkg = "gopkg.in/yaml.v3"
+
+type yamlSide struct {
+	nodes map[*Value]*yaml.Node // engine *yaml.Node cell -> native node
+	docs  map[*Value]*ydoc      // first byte cell of a marshalled document -> tree
+}
+
+func (e *Engine) yside() *yamlSide {
+	s, _ := e.hostState["yaml"].(*yamlSide)
+	if s == nil {
+		s = &yamlSide{nodes: map[*Value]*yaml.Node{}, docs: map[*Value]*ydoc{}}
+		e.hostState["yaml"] = s
+	}
+	return s
+}
+
+func (e *Engine) yamlNodeType() *types.Named {
+	return e.prog.Pkgs[yamlPkg].Type("Node").Type().(*types.Named)
+}
+
+// engineNode builds the engine value of a *yaml.Node for a native node.
+func (e *Engine) engineNode(n *yaml.Node) *Value {
+	nt := e.yamlNodeType()
+	st := under(nt).(*types.Struct)
+	sv := e.zero(nt).(structV)
+	for i := 0; i < st.NumFields(); i++ {
+		switch st.Field(i).Name() {
+		case "Kind":
+			sv[i] = uint64(n.Kind)
+		case "Style":
+			sv[i] = uint64(n.Style)
+		case "Tag":
+			sv[i] = n.Tag
+		case "Value":
+			sv[i] = n.Value
+		case "Anchor":
+			sv[i] = n.Anchor
+		case "Line":
+			sv[i] = int64(n.Line)
+		case "Column":
+			sv[i] = int64(n.Column)
+		case "Content":
+			a := make([]Value, len(n.Content))
+			for k, c := range n.Content {
+				a[k] = e.engineNode(c)
+			}
+			sv[i] = sliceV{a: a}
+		}
+	}
+	cell := new(Value)
+	*cell = sv
+	e.yside().nodes[cell] = n
+	return cell
+}
+
+// nativeNode recovers (or rebuilds) the native node behind an engine *yaml.Node. For a
+// harness-built scalar node with a symbolic Value it returns nil and the Value.
+func (e *Engine) nativeNode(p *Value) (*yaml.Node, Value) {
+	if n, ok := e.yside().nodes[p]; ok {
+		return n, nil
+	}
+	st := under(e.yamlNodeType()).(*types.Struct)
+	sv := (*p).(structV)
+	n := &yaml.Node{}
+	for i := 0; i < st.NumFields(); i++ {
+		switch st.Field(i).Name() {
+		case "Kind":
+			n.Kind = yaml.Kind(asU64(sv[i]))
+		case "Tag":
+			n.Tag, _ = sv[i].(string)
+		case "Value":
+			s, ok := sv[i].(string)
+			if !ok {
+				return nil, sv[i]
+			}
+			n.Value = s
+		case "Content":
+			for _, c := range sv[i].(sliceV).a {
+				cn, symv := e.nativeNode(c.(*Value))
+				if cn == nil {
+					return nil, symv
+				}
+				n.Content = append(n.Content, cn)
+			}
+		}
+	}
+	if n.Kind == 0 {
+		n.Kind = yaml.ScalarNode
+	}
+	return n, nil
+}
+
+func (e *Engine) hasUnmarshalYAML(t types.Type) *ssa.Function {
+	var pt types.Type = types.NewPointer(t)
+	if _, ok := under(t).(*types.Pointer); ok {
+		pt = t
+	}
+	m := e.findMethod(pt, "UnmarshalYAML")
+	if m == nil {
+		return nil
+	}
+	sig := m.Signature
+	if sig.Params().Len() == 1 && sig.Results().Len() == 1 {
+		if p, ok := sig.Params().At(0).Type().(*types.Pointer); ok {
+			if nm, ok := p.Elem().(*types.Named); ok && nm.Obj().Name() == "Node" {
+				return m
+			}
+		}
+	}
+	return nil
+}
+
+type yamlFieldInfo struct {
+	index     int
+	key       string
+	omitempty bool
+	inline    bool
+}
+
+func yamlFields(st *types.Struct) []yamlFieldInfo {
+	var out []yamlFieldInfo
+	for i := 0; i < st.NumFields(); i++ {
+		f := st.Field(i)
+		if !f.Exported() {
+			continue
+		}
+		tag := reflect.StructTag(st.Tag(i)).Get("yaml")
+		if tag == "" && !strings.Contains(st.Tag(i), ":") && st.Tag(i) != "" {
+			tag = st.Tag(i)
+		}
+		parts := strings.Split(tag, ",")
+		fi := yamlFieldInfo{index: i, key: parts[0]}
+		if fi.key == "-" {
+			continue
+		}
+		for _, o := range parts[1:] {
+			switch o {
+			case "omitempty":
+				fi.omitempty = true
+			case "inline":
+				fi.inline = true
+			}
+		}
+		if fi.key == "" {
+			fi.key = strings.ToLower(f.Name())
+		}
+		out = append(out, fi)
+	}
+	return out
+}
+
+// ydecode decodes node n into the cell dst of static type t. It returns an error value
+// (iface) or nil iface.
+func (e *Engine) ydecode(n *yaml.Node, t types.Type, dst *Value, errs *[]string) Value {
+	for n.Kind == yaml.AliasNode {
+		n = n.Alias
+	}
+	if n.Kind == yaml.DocumentNode {
+		if len(n.Content) == 0 {
+			return iface{}
+		}
+		return e.ydecode(n.Content[0], t, dst, errs)
+	}
+	isNull := n.Kind == yaml.ScalarNode && n.ShortTag() == "!!null"
+	if pt, ok := under(t).(*types.Pointer); ok {
+		if isNull {
+			e.set(dst, (*Value)(nil))
+			return iface{}
+		}
+		if m := e.hasUnmarshalYAML(t); m != nil && false {
+			_ = m
+		}
+		cell, _ := (*dst).(*Value)
+		if cell == nil {
+			cell = new(Value)
+			*cell = e.zero(pt.Elem())
+			e.set(dst, cell)
+		}
+		return e.ydecode(n, pt.Elem(), cell, errs)
+	}
+	if m := e.hasUnmarshalYAML(t); m != nil {
+		if isNull {
+			// yaml.v3 skips the unmarshaler for null unless it is a pointer-to-pointer case
+			e.store(t, dst, e.zero(t))
+			return iface{}
+		}
+		en := e.engineNode(n)
+		r := e.call(m, []Value{dst, en}, nil)
+		if ri, ok := r.(iface); ok && ri.t != nil {
+			return ri
+		}
+		return iface{}
+	}
+	if isNull {
+		e.store(t, dst, e.zero(t))
+		return iface{}
+	}
+	typeErr := func() Value {
+		*errs = append(*errs, fmt.Sprintf("line %d: cannot unmarshal %s into %v", n.Line, n.ShortTag(), t))
+		return iface{}
+	}
+	switch u := under(t).(type) {
+	case *types.Struct:
+		if n.Kind != yaml.MappingNode {
+			return typeErr()
+		}
+		fields := yamlFields(u)
+		sv, ok := (*dst).(structV)
+		if !ok {
+			e.set(dst, e.zero(t))
+			sv = (*dst).(structV)
+		}
+		seen := map[string]bool{}
+		for i := 0; i+1 < len(n.Content); i += 2 {
+			kn := n.Content[i]
+			if kn.Kind != yaml.ScalarNode {
+				continue
+			}
+			if seen[kn.Value] {
+				return e.newErr(fmt.Sprintf("yaml: line %d: mapping key %q already defined", kn.Line, kn.Value))
+			}
+			seen[kn.Value] = true
+			for _, f := range fields {
+				if f.inline {
+					e.abort(abortEngine, "yaml inline fields not modelled")
+				}
+				if f.key == kn.Value {
+					if er := e.ydecode(n.Content[i+1], u.Field(f.index).Type(), &sv[f.index], errs); er.(iface).t != nil {
+						return er
+					}
+				}
+			}
+		}
+		return iface{}
+	case *types.Slice:
+		if n.Kind != yaml.SequenceNode {
+			return typeErr()
+		}
+		a := make([]Value, len(n.Content))
+		for i := range a {
+			a[i] = e.zero(u.Elem())
+		}
+		for i, c := range n.Content {
+			if er := e.ydecode(c, u.Elem(), &a[i], errs); er.(iface).t != nil {
+				return er
+			}
+		}
+		e.set(dst, sliceV{a: a})
+		return iface{}
+	case *types.Array:
+		if n.Kind != yaml.SequenceNode || int64(len(n.Content)) != u.Len() {
+			return typeErr()
+		}
+		av := (*dst).(arrayV)
+		for i, c := range n.Content {
+			if er := e.ydecode(c, u.Elem(), &av[i], errs); er.(iface).t != nil {
+				return er
+			}
+		}
+		return iface{}
+	case *types.Map:
+		if n.Kind != yaml.MappingNode {
+			return typeErr()
+		}
+		m, _ := (*dst).(*mapObj)
+		if m == nil {
+			m = &mapObj{keyT: u.Key(), valT: u.Elem(), idxFor: -1}
+			e.set(dst, m)
+		}
+		for i := 0; i+1 < len(n.Content); i += 2 {
+			kc, vc := new(Value), new(Value)
+			*kc, *vc = e.zero(u.Key()), e.zero(u.Elem())
+			if er := e.ydecode(n.Content[i], u.Key(), kc, errs); er.(iface).t != nil {
+				return er
+			}
+			if er := e.ydecode(n.Content[i+1], u.Elem(), vc, errs); er.(iface).t != nil {
+				return er
+			}
+			e.mapUpdate(m, *kc, *vc)
+		}
+		return iface{}
+	case *types.Basic:
+		if n.Kind != yaml.ScalarNode {
+			return typeErr()
+		}
+		switch {
+		case isStringT(u):
+			var s string
+			if err := n.Decode(&s); err != nil {
+				return typeErr()
+			}
+			e.set(dst, s)
+		case isBoolT(u):
+			var b bool
+			if err := n.Decode(&b); err != nil {
+				return typeErr()
+			}
+			e.set(dst, b)
+		case isFloat(u):
+			var f float64
+			if err := n.Decode(&f); err != nil {
+				return typeErr()
+			}
+			e.set(dst, f)
+		default:
+			w, signed, ok := intInfo(u)
+			if !ok {
+				e.abort(abortEngine, fmt.Sprintf("yaml decode into %v", t))
+			}
+			if signed {
+				var x int64
+				if err := n.Decode(&x); err != nil {
+					return typeErr()
+				}
+				if w < 64 && (x >= 1<<uint(w-1) || x < -(1<<uint(w-1))) {
+					return typeErr()
+				}
+				e.set(dst, x)
+			} else {
+				var x uint64
+				if err := n.Decode(&x); err != nil {
+					return typeErr()
+				}
+				if w < 64 && x >= 1<<uint(w) {
+					return typeErr()
+				}
+				e.set(dst, x)
+			}
+		}
+		return iface{}
+	case *types.Interface:
+		e.abort(abortEngine, "yaml decode into interface value not modelled")
+	}
+	e.abort(abortEngine, fmt.Sprintf("yaml decode into %v not modelled", t))
+	return nil
+}
+
+func (e *Engine) bytesOf(v Value, what string) []byte {
+	s := v.(sliceV)
+	b := make([]byte, len(s.a))
+	for i, x := range s.a {
+		u, ok := x.(uint64)
+		if !ok {
+			e.abort(abortEngine, what+": symbolic bytes")
+		}
+		b[i] = byte(u)
+	}
+	return b
+}
+
+func (e *Engine) finishDecode(er Value, errs []string) Value {
+	if er.(iface).t != nil {
+		return er
+	}
+	if len(errs) > 0 {
+		return e.newErr("yaml: unmarshal errors:\n  " + strings.Join(errs, "\n  "))
+	}
+	return iface{}
+}
+
+func registerYAML(e *Engine) {
+	r := e.intr
+	r[yamlPkg+".Unmarshal"] = func(e *Engine, fr *frame, args []Value, site ssa.CallInstruction) Value {
+		out := args[1].(iface)
+		if out.t == nil {
+			return e.newErr("yaml: Unmarshal(nil)")
+		}
+		dst, ok := out.v.(*Value)
+		if !ok || dst == nil {
+			return e.newErr("yaml: Unmarshal(non-pointer)")
+		}
+		in := args[0].(sliceV)
+		if len(in.a) > 0 {
+			if d, ok := e.yside().docs[&in.a[0]]; ok {
+				return e.ydecodeDoc(d, deref(out.t), dst)
+			}
+		}
+		b := e.bytesOf(args[0], "yaml.Unmarshal")
+		var doc yaml.Node
+		if err := yaml.Unmarshal(b, &doc); err != nil {
+			return e.newErr(err.Error())
+		}
+		if doc.Kind == 0 {
+			return iface{} // empty document: destination untouched
+		}
+		var errs []string
+		er := e.ydecode(&doc, deref(out.t), dst, &errs)
+		return e.finishDecode(er, errs)
+	}
+	r["(*"+yamlPkg+".Node).Decode"] = func(e *Engine, fr *frame, args []Value, site ssa.CallInstruction) Value {
+		np := args[0].(*Value)
+		out := args[1].(iface)
+		dst := out.v.(*Value)
+		t := deref(out.t)
+		n, symv := e.nativeNode(np)
+		if n == nil {
+			// scalar node with a symbolic value
+			if m := e.hasUnmarshalYAML(t); m != nil {
+				r := e.call(m, []Value{dst, np}, nil)
+				if ri, ok := r.(iface); ok && ri.t != nil {
+					return ri
+				}
+				return iface{}
+			}
+			if isStringT(t) {
+				e.set(dst, symv)
+				return iface{}
+			}
+			e.abort(abortEngine, fmt.Sprintf("Node.Decode of a symbolic scalar into %v", t))
+		}
+		var errs []string
+		er := e.ydecode(n, t, dst, &errs)
+		return e.finishDecode(er, errs)
+	}
+	registerYAMLMarshal(e)
+}
